@@ -546,6 +546,24 @@ func viewName(v emuView) string {
 
 // signExtendedWord reports whether the value assigned is the sign extension of a 32-bit result.
 func (e *emuCtx) signExtendedWord(rhs ast.Expr) (bool, string) {
+	// a constant expression of any spelling (RVUInt(int64(-1)), ^RVUInt(0), …): judged by its value in the register
+	if tv, ok := e.info.Types[rhs]; ok && tv.Value != nil && tv.Value.Kind() == constant.Int {
+		var c int64
+		if s, exact := constant.Int64Val(tv.Value); exact {
+			c = s
+		} else if u, exact := constant.Uint64Val(tv.Value); exact {
+			c = int64(u)
+		} else {
+			return false, "constant " + tv.Value.ExactString() + " does not fit the register"
+		}
+		if e.xlen == 32 {
+			return true, "" // the register is 32 bits wide: every value is its own low word
+		}
+		if c == int64(int32(c)) {
+			return true, ""
+		}
+		return false, fmt.Sprintf("constant %d (%#x) is not a sign-extended 32-bit value", c, uint64(c))
+	}
 	v := e.view(rhs)
 	if c, ok := e.constInt(v.inner); ok && len(v.convs) >= 0 {
 		if c == int64(int32(c)) {
